@@ -834,7 +834,10 @@ func (m *Monitors) onStore(n *Node, nm *nodeMon, e *spi.Event) {
 		// (a leader storing its own proposal evaluates nothing: "prepared" is evaluated when a PREPARE or a leader's proposal
 		// arrives — a leader whose own weight reaches the quorum is the recorded C05 finding, not a lock it must carry)
 		ownProposal := e.Kind == spi.EvStorePP && e.Sender == n.Id
-		if hash, ok := nm.storedPP[hv{e.H, e.V}]; ok && !ownProposal && !nm.blockless[hv{e.H, e.V}] && uint64(n.St.Height()) == e.H && uint64(n.St.View()) == e.V {
+		// (a stored PREPARE for another hash than the stored proposal's evaluates nothing either: seen as a false alarm in a
+		// thorough run — a leader whose own weight is the quorum stored a Byzantine PREPARE for a foreign hash and the monitor
+		// took "leader weight + empty set of PREPAREs" for a certificate)
+		if hash, ok := nm.storedPP[hv{e.H, e.V}]; ok && !ownProposal && (e.Kind == spi.EvStorePP || e.Hash == hash) && !nm.blockless[hv{e.H, e.V}] && uint64(n.St.Height()) == e.H && uint64(n.St.View()) == e.V {
 			c := w.Comm(e.H)
 			if weightOK(c, nm.storedP[hvh{e.H, e.V, hash}], c.Leader(e.V)) {
 				if nm.heldCert[e.H] == nil {
